@@ -37,7 +37,7 @@ import (
 const verifDir = "/verif"
 
 var basePkgs = []string{"errors", "encoding/binary", "bytes", "strings", "sort", "slices", "math/bits", "io",
-	"unicode/utf8", "strconv", "sync/atomic", "context", "container/list", "maps", "bufio", "cmp", "iter", "math"}
+	"unicode/utf8", "strconv", "internal/strconv", "sync/atomic", "context", "container/list", "maps", "bufio", "cmp", "iter", "math"}
 
 type harnessDef struct {
 	Name    string
@@ -126,6 +126,9 @@ func loadCheck(id string) (*checkDef, error) {
 		pkgDir := filepath.Dir(virt)
 		pats["./"+pkgDir] = true
 		pkgPath := engine.RepoMod + "/" + pkgDir
+		if !contains(cd.Spec.InitPkgs, pkgPath) {
+			cd.Spec.InitPkgs = append(cd.Spec.InitPkgs, pkgPath)
+		}
 		// harness functions and their opts (doc comment lines immediately above)
 		for i, ln := range lines {
 			mm := reFunc.FindStringSubmatch(ln)
@@ -159,6 +162,15 @@ func loadCheck(id string) (*checkDef, error) {
 	return cd, nil
 }
 
+func contains(l []string, s string) bool {
+	for _, x := range l {
+		if x == s {
+			return true
+		}
+	}
+	return false
+}
+
 func atoi(s string, def int) int {
 	if s == "" {
 		return def
@@ -183,6 +195,10 @@ func (h *harnessDef) config(tier string, known map[string]bool) engine.Config {
 	c.MaxPaths = atoi(h.Opts["maxpaths"], 0)
 	c.MaxDecs = atoi(h.Opts["maxdecs"], 0)
 	c.TimeoutMs = atoi(h.Opts["timeout_ms"], 0)
+	c.MaxWallS = atoi(h.Opts["maxwall"], 0)
+	if tier == "thorough" {
+		c.MaxWallS = atoi(h.Opts["maxwall_thorough"], c.MaxWallS*4)
+	}
 	return c
 }
 
